@@ -19,6 +19,15 @@ abbrev M := Except Err
 def reject {α} (msg : String) : M α := .error (.reject msg)
 def gopanic {α} (msg : String) : M α := .error (.panic msg)
 
+/-- `if !c { return err }` as one monadic step (keeps handlers a plain chain of binds). -/
+def require (c : Bool) (msg : String) : M Unit := if c then pure () else reject msg
+/-- `if !c { panic(...) }`. -/
+def requireP (c : Bool) (msg : String) : M Unit := if c then pure () else gopanic msg
+/-- `x, found := get(); if !found { return err }`. -/
+def orReject {α} (o : Option α) (msg : String) : M α := match o with | some a => pure a | none => reject msg
+/-- `x, found := get(); if !found { panic(...) }`. -/
+def orPanic {α} (o : Option α) (msg : String) : M α := match o with | some a => pure a | none => gopanic msg
+
 /-- `big.Int.BitLen() > 256`, i.e. `|i| ≥ 2^256`. -/
 def intOverflows (i : Int) : Bool := i.natAbs ≥ 115792089237316195423570985008687907853269984665640564039457584007913129639936  -- 2^256, written out (see `Hub.SDK.two_pow_256`)
 
